@@ -29,12 +29,12 @@ PROPS = {
     },
     "C12": {
         "harnesses": {"c12_domain": 1.0},
-        "budget_s": {"quick": 60, "thorough": 900},
+        "budget_s": {"quick": 45, "thorough": 900},
         "min_runs": {"quick": 60, "thorough": 1000},
     },
     "C13": {
         "harnesses": {"c13_scalar": 0.8, "c13_app": 0.2},
-        "budget_s": {"quick": 75, "thorough": 1200},
+        "budget_s": {"quick": 55, "thorough": 1200},
         "min_runs": {"quick": 40, "thorough": 1000},
     },
     "C05": {
@@ -385,7 +385,7 @@ def main():
                 s["time"] += dt
                 per = dt / max(1, len(res) + (1 if viol else 0))
                 # aim at ~3 s per worker process
-                s["chunk"] = int(max(4, min(2000, 3.0 / max(per, 1e-4))))
+                s["chunk"] = int(max(2, min(2000, 2.0 / max(per, 1e-4))))
                 results[h].extend(res)
                 if err:
                     infra.append(err)
